@@ -108,6 +108,8 @@ def load_job_payload(job: Dict[str, Any], work: Path):
     else:
         rng = random.Random(job["seed"])
         w = adv.gen_world(rng, n_steps=job["steps"], **(job.get("world_kwargs") or {}))
+        if job.get("dispatcher"):
+            w["dispatcher"] = dict(w.get("dispatcher") or {}, **job["dispatcher"])
         scen = world.write_world(work / f"world_{job['id']}", w)
         rp = world.load(scen, work / "out", suffix=job["id"], lazy=bool(w.get("lazy")))
         if w.get("preload"):
@@ -119,6 +121,8 @@ def load_job_payload(job: Dict[str, Any], work: Path):
                 gens.append(adv.Adversary(job["seed"] * 7 + k, label=f"Adversary{k}", p_instr=job.get("p_instr", 0.3), kinds=job.get("kinds")))
             elif part == "counter":
                 gens.append(adv.CountingGenerator())
+            elif part == "charge":
+                gens.append(adv.ChargeDriver(job["seed"] * 7 + k))
             elif part == "queue":
                 gens.append(adv.QueueDriver(job["seed"] * 7 + k))
             else:
@@ -361,6 +365,52 @@ def state_fp(sim) -> Tuple[List[List[str]], List[str]]:
     return out, sorted(set(mutable))
 
 
+def sibling_payloads(rp, rng, prefer: Optional[set] = None) -> List[Any]:
+    """what-if variants of a retained payload AT THE SAME MOMENT, made through the public entity API (a co-simulation
+    user exploring alternatives): a station handed to an operator nobody belongs to, a plug throttled, a vehicle's charge
+    level corrected.  Stepping them must not influence what stepping the retained payload gives."""
+    import immutables
+    from returns.result import Failure
+
+    from nrel.hive.state.simulation_state import simulation_state_ops
+
+    sim = rp.s
+    out = []
+    stations = [sim.stations[k] for k in sorted(sim.stations.keys())]
+    rng.shuffle(stations)
+    # first the stations the controllers are about to send vehicles to
+    stations.sort(key=lambda st: 0 if prefer and st.id in prefer else 1)
+    for st in stations[:2]:
+        try:
+            out.append(rp._replace(s=simulation_state_ops.modify_entity(sim, st.set_membership(("nobody",)))))
+        except Exception:
+            pass
+    for st in stations[:1]:
+        cid = sorted(st.state.keys())[0]
+        res = st.set_charger_rate(cid, rp.e.chargers[cid].rate * 0.25)
+        if not isinstance(res, Failure):
+            try:
+                out.append(rp._replace(s=simulation_state_ops.modify_entity(sim, res.unwrap())))
+            except Exception:
+                pass
+    vehicles = [v for v in sim.get_vehicles() if type(v.vehicle_state).__name__ in ("ChargingStation", "ChargeQueueing", "Idle", "ChargingBase")]
+    rng.shuffle(vehicles)
+    changed = []
+    for v in vehicles[:3]:
+        mech = rp.e.mechatronics.get(v.mechatronics_id)
+        cap = getattr(mech, "battery_capacity_kwh", None) or getattr(mech, "tank_capacity_gallons", None)
+        if cap:
+            et = list(v.energy.keys())[0]
+            changed.append(v.modify_energy(immutables.Map({et: cap * rng.choice([0.15, 0.5])})))
+    if changed:
+        try:
+            # second in line: a variant in which ONLY vehicles differ (every station object is the very same)
+            out.insert(1, rp._replace(s=simulation_state_ops.modify_entities(sim, tuple(changed))))
+        except Exception:
+            pass
+    return out
+
+
 def observe_saved(job: Dict[str, Any], work: Path) -> Dict[str, Any]:
     """C16: retain states during a run, re-read them later; step / instruct the same retained state twice"""
     import random
@@ -403,6 +453,32 @@ def observe_saved(job: Dict[str, Any], work: Path) -> Dict[str, Any]:
                 lines.append({"k": "twice", "prop": "C16", "clause": "same_result_twice", "scen": job["id"], "i": k, "labels": ["first", "second"],
                               "vals": [{"state": [[a, b] for a, b in sorted(full_state(s1, rp.e).items())], "reports": r1},
                                        {"state": [[a, b] for a, b in sorted(full_state(s2, rp.e).items())], "reports": r2}]})
+                # ... and once more after what-if variants of it (same moment, other entities) have been stepped
+                sibs = []
+                targets = set()
+                for g in rp.u.step_update.ordered_instruction_generators:
+                    targets.update(getattr(i, "station_id", None) for i in g.generate_instructions(rp.s, rp.e)[1])
+                take_reports()
+                for sib in sibling_payloads(rp, rng, targets - {None}):
+                    try:
+                        take_reports()
+                        fp_s, _ = state_fp(sib.s)
+                        s_sib, _ = sib.u.step_update.update(sib.s, sib.e)
+                        # the variant is a retained state of its own: it is re-read and stepped again at the end of the run,
+                        # when whatever the process remembered about this moment is long gone
+                        sibs.append({"k": k, "rp": sib, "fp": fp_s, "variant": True,
+                                     "first": {"state": [[a, b] for a, b in sorted(full_state(s_sib, sib.e).items())], "reports": take_reports()}})
+                    except Exception:
+                        pass          # a variant the simulator refuses to step is of no interest here
+                take_reports()
+                s3, _ = rp.u.step_update.update(rp.s, rp.e)
+                r3 = take_reports()
+                lines.append({"k": "after_siblings", "prop": "C16", "clause": "same_result_twice", "scen": job["id"], "i": k,
+                              "labels": ["first", "after_what_if_variants"],
+                              "vals": [saved[-1]["first"], {"state": [[a, b] for a, b in sorted(full_state(s3, rp.e).items())], "reports": r3}]})
+                for n_, sb_ in enumerate(sibs[:3]):
+                    sb_["slot"] = n_ + 1
+                    saved.append(sb_)
                 # the same instructions applied twice to the same retained state
                 gens = rp.u.step_update.ordered_instruction_generators
                 instrs: List[Any] = []
@@ -432,7 +508,9 @@ def observe_saved(job: Dict[str, Any], work: Path) -> Dict[str, Any]:
                     lines.append({"k": "reread", "prop": "C16", "clause": "saved_state_unchanged", "scen": job["id"], "i": sv["k"],
                                   "labels": ["when_saved", f"after_{k + 1 - sv['k']}_steps"],
                                   "vals": [{"state": sv["fp"], "reports": []}, {"state": fp_now, "reports": []}]})
-        for sv in saved:
+        # consecutive re-steps are of DIFFERENT moments (all originals, then all first variants, ...): whatever the process
+        # may remember "about the current time step" comes from an unrelated moment
+        for sv in sorted(saved, key=lambda x: (x.get("slot", 0), x["k"])):
             fp_now, _ = state_fp(sv["rp"].s)
             lines.append({"k": "reread_at_end", "prop": "C16", "clause": "saved_state_unchanged", "scen": job["id"], "i": sv["k"],
                           "labels": ["when_saved", "at_end"], "vals": [{"state": sv["fp"], "reports": []}, {"state": fp_now, "reports": []}]})
